@@ -761,7 +761,7 @@ theorem solve_inv_box (strategy : Nat) (hstr : 2 ≤ strategy) (eps : Rat) (heps
       Inv (solve strategy eps fuel s counter it).1 ∧ (solve strategy eps fuel s counter it).1.eqc = false := by
   intro fuel
   induction fuel with
-  | zero => intro s _ _ h he; exact ⟨h, he⟩
+  | zero => intro s _ _ h he; exact ⟨inv_unshrink h, (unshrink_eqc s).trans he⟩
   | succ fuel ih =>
     intro s counter it h he
     obtain ⟨hev, hnext⟩ := solveIter_inv_box strategy hstr eps heps s counter h he
@@ -872,7 +872,7 @@ theorem solve_inv_svm_partial (eps : Rat) (heps : 0 < eps) :
       Inv (solve 1 eps fuel s counter it).1 ∧ (solve 1 eps fuel s counter it).1.eqc = true := by
   intro fuel
   induction fuel with
-  | zero => intro s _ _ h he _; exact ⟨h, he⟩
+  | zero => intro s _ _ h he _; exact ⟨inv_unshrink h, (unshrink_eqc s).trans he⟩
   | succ fuel ih =>
     intro s counter it h he hr
     have hrs : SentinelOK s := hr s (by unfold passStates; exact List.mem_cons_self ..)
